@@ -20,6 +20,8 @@ fn gmul(mut a: u8, mut b: u8) -> u8 {
 struct Tables {
     sbox: [u8; 256],
     inv: [u8; 256],
+    /// m[k][x] = x * k in GF(2^8) for k in {2,3,9,11,13,14} (indices 0..6), computed by gmul
+    m: [[u8; 256]; 6],
 }
 
 fn tables() -> &'static Tables {
@@ -52,7 +54,13 @@ fn tables() -> &'static Tables {
             sbox[x] = s;
             inv[s as usize] = x as u8;
         }
-        Tables { sbox, inv }
+        let mut m = [[0u8; 256]; 6];
+        for (i, k) in [2u8, 3, 9, 11, 13, 14].iter().enumerate() {
+            for x in 0..256usize {
+                m[i][x] = gmul(x as u8, *k);
+            }
+        }
+        Tables { sbox, inv, m }
     })
 }
 
@@ -116,10 +124,11 @@ impl Aes128 {
             if r != 10 {
                 for c in 0..4 {
                     let a = [s[4 * c], s[4 * c + 1], s[4 * c + 2], s[4 * c + 3]];
-                    s[4 * c] = gmul(a[0], 2) ^ gmul(a[1], 3) ^ a[2] ^ a[3];
-                    s[4 * c + 1] = a[0] ^ gmul(a[1], 2) ^ gmul(a[2], 3) ^ a[3];
-                    s[4 * c + 2] = a[0] ^ a[1] ^ gmul(a[2], 2) ^ gmul(a[3], 3);
-                    s[4 * c + 3] = gmul(a[0], 3) ^ a[1] ^ a[2] ^ gmul(a[3], 2);
+                    let (m2, m3) = (&t.m[0], &t.m[1]);
+                    s[4 * c] = m2[a[0] as usize] ^ m3[a[1] as usize] ^ a[2] ^ a[3];
+                    s[4 * c + 1] = a[0] ^ m2[a[1] as usize] ^ m3[a[2] as usize] ^ a[3];
+                    s[4 * c + 2] = a[0] ^ a[1] ^ m2[a[2] as usize] ^ m3[a[3] as usize];
+                    s[4 * c + 3] = m3[a[0] as usize] ^ a[1] ^ a[2] ^ m2[a[3] as usize];
                 }
             }
             Self::add(&mut s, &self.rk[r]);
@@ -146,10 +155,12 @@ impl Aes128 {
             if r != 0 {
                 for c in 0..4 {
                     let a = [s[4 * c], s[4 * c + 1], s[4 * c + 2], s[4 * c + 3]];
-                    s[4 * c] = gmul(a[0], 14) ^ gmul(a[1], 11) ^ gmul(a[2], 13) ^ gmul(a[3], 9);
-                    s[4 * c + 1] = gmul(a[0], 9) ^ gmul(a[1], 14) ^ gmul(a[2], 11) ^ gmul(a[3], 13);
-                    s[4 * c + 2] = gmul(a[0], 13) ^ gmul(a[1], 9) ^ gmul(a[2], 14) ^ gmul(a[3], 11);
-                    s[4 * c + 3] = gmul(a[0], 11) ^ gmul(a[1], 13) ^ gmul(a[2], 9) ^ gmul(a[3], 14);
+                    let (m9, m11, m13, m14) = (&t.m[2], &t.m[3], &t.m[4], &t.m[5]);
+                    let a = [a[0] as usize, a[1] as usize, a[2] as usize, a[3] as usize];
+                    s[4 * c] = m14[a[0]] ^ m11[a[1]] ^ m13[a[2]] ^ m9[a[3]];
+                    s[4 * c + 1] = m9[a[0]] ^ m14[a[1]] ^ m11[a[2]] ^ m13[a[3]];
+                    s[4 * c + 2] = m13[a[0]] ^ m9[a[1]] ^ m14[a[2]] ^ m11[a[3]];
+                    s[4 * c + 3] = m11[a[0]] ^ m13[a[1]] ^ m9[a[2]] ^ m14[a[3]];
                 }
             }
         }
